@@ -355,5 +355,17 @@ theorem insCoreC_emb (nn : Viewshed.Node K) : ∀ (t : Viewshed.Tree K),
       · simp only [Option.map_some, emb_lt]
         split <;> split <;> simp_all [mapT, emb_lt]
 
+theorem atPath_emb (g : Viewshed.Tree (Fv (NV K)) → Viewshed.Tree (Fv (NV K))) (g0 : Viewshed.Tree K → Viewshed.Tree K)
+    (hg : ∀ t, g (mapT emb t) = mapT emb (g0 t)) : ∀ (p : List Dir) (t : Viewshed.Tree K),
+    atPath g p (mapT emb t) = mapT emb (atPath g0 p t) := by
+  intro p
+  induction p with
+  | nil => intro t; exact hg t
+  | cons d p ih =>
+    intro t
+    cases t with
+    | nil => cases d <;> rfl
+    | node l n mx c r => cases d <;> simp [atPath, mapT, ih]
+
 end field
 end XrsVerif.ILVs
